@@ -320,7 +320,7 @@ class GPyRegression:
         logger.debug("Optimizing GP hyperparameters")
         try:
             self._gp.optimize(self.optimizer, max_iters=self.max_opt_iters)
-        except np.linalg.linalg.LinAlgError:
+        except np.linalg.LinAlgError:
             logger.warning("Numerical error in GP optimization. Stopping optimization")
 
     @property
